@@ -291,11 +291,25 @@ Record cfg := mkCfg {
 Definition cfg_fixed := mkCfg true true true true true true.
 Definition cfg_prefix := mkCfg false false false false false false.
 
+(* os.Lstat: the kernel walks the path (links among the parents are followed - the working
+   directory may be reached through one), the last element is not followed *)
+Inductive lstat_res := LDir (q : path) | LFile | LSym | LNone | LErr.
+Definition klstat (f : fsys) (p : list name) : lstat_res :=
+  match awalk f p false with
+  | WDir q => LDir q
+  | WFile _ _ => LFile
+  | WSym _ _ _ _ => LSym
+  | WNoEnt _ => LNone
+  | WErrNoEnt => LNone
+  | WErr => LErr
+  end.
+
 Definition touch (g : cfg) (f : fsys) (fp : list name) (t : N) : fsys :=
   if fixT g then
-    match lookup f fp with
-    | Some (NSym _ _ _) => f
-    | _ => chtimes_at f fp t
+    match klstat f fp with
+    | LDir _ => chtimes_at f fp t
+    | LFile => chtimes_at f fp t
+    | _ => f       (* a link, or Lstat failed: no Chtimes *)
     end
   else chtimes_at f fp t.
 
@@ -305,9 +319,9 @@ Fixpoint mkdir_real (f : fsys) (cur : path) (qs : list name) (m : N) : option fs
   match qs with
   | [] => Some f
   | c :: r =>
-    match lookup f (cur ++ [c]) with
-    | Some NDir => mkdir_real f (cur ++ [c]) r m
-    | None =>
+    match klstat f (cur ++ [c]) with
+    | LDir _ => mkdir_real f (cur ++ [c]) r m
+    | LNone =>
       match awalk f (cur ++ [c]) false with
       | WNoEnt p => mkdir_real (new_dir p m f) (cur ++ [c]) r m
       | _ => None
@@ -318,8 +332,8 @@ Fixpoint mkdir_real (f : fsys) (cur : path) (qs : list name) (m : N) : option fs
 
 (* removeSymlink(path): Lstat, os.Remove when it is a link *)
 Definition unlink_if_symlink (f : fsys) (fp : list name) : option fsys :=
-  match lookup f fp with
-  | Some (NSym _ _ _) => remove_at f fp
+  match klstat f fp with
+  | LSym => remove_at f fp
   | _ => Some f
   end.
 
@@ -484,15 +498,16 @@ Fixpoint restore_dirs (pres : bool) (f : fsys) (dirs : list (path * N)) (seen : 
   | (p, m) :: r =>
     if existsb (path_eqb p) seen then restore_dirs pres f r seen
     else
-      match lookup f p with
-      | Some NDir =>
-        let want := if pres then m else N.land (dir_mode f p) m in
-        if negb pres && (want =? dir_mode f p)%N then restore_dirs pres f r (p :: seen)
+      match klstat f p with
+      | LDir q =>
+        let want := if pres then m else N.land (dir_mode f q) m in
+        if negb pres && (want =? dir_mode f q)%N then restore_dirs pres f r (p :: seen)
         else match chmod_at f p want with
              | Some f' => restore_dirs pres f' r (p :: seen)
              | None => None
              end
-      | None => None
+      | LNone => None
+      | LErr => None
       | _ => restore_dirs pres f r (p :: seen)
       end
   end.
